@@ -239,8 +239,163 @@ class ScoreSys:
         return self.last
 
 
+# ---------------------------------------------------------------------------
+# Clock tasks in non-real-time mode: one global time-ordered queue of
+# (clock, task) schedulings behind SystemClock / TempoClock / AppClock
+# ---------------------------------------------------------------------------
+
+NS_TEMPO = {'s': 1.0, 't2': 2.0, 'a': 1.0}
+NS_SPEC = {'s': ['system'], 't2': ['tempo', 2.0], 'a': ['app']}
+
+
+def nrtsched_programs():
+    """A controller routine on SystemClock re-schedules a function task f0
+    (returns 1.0 three times) and a routine r0 (yields 1.0 three times) that
+    are already pending / have already been awakened."""
+    out = []
+    targets = ['f0', 'r0']
+    clocks = ['s', 't2', 'a']
+    ops = [[c, d, t] for c in clocks for d in (0, 0.25, 1.0) for t in targets]
+    for c0 in clocks:                       # both tasks start at 0 on c0
+        for w1 in (0.5, 1.5):
+            for op1 in ops:
+                for op2 in [None] + ops:
+                    k = [['yield', w1], ['sched'] + op1]
+                    if op2 is not None:
+                        if op2 == op1:
+                            continue
+                        k += [['yield', 0.25], ['sched'] + op2]
+                    used = {c0, op1[0]} | ({op2[0]} if op2 else set())
+                    cl = {'s': NS_SPEC['s']}
+                    for c in used:
+                        cl[c] = NS_SPEC[c]
+                    out.append({
+                        'clocks': cl,
+                        # an awakeable object: ONE item however often it is
+                        # scheduled (a plain function is wrapped anew by
+                        # every sched() call and is a new item each time)
+                        'funcs': {'f0': {'returns': [1.0, 1.0, 1.0, None],
+                                         'kind': 'awakeable'}},
+                        'routines': {'k': k,
+                                     'r0': [['yield', 1.0], ['yield', 1.0],
+                                            ['yield', 1.0]]},
+                        'actors': {'main': [['sched', c0, 0, 'f0'],
+                                            ['sched', c0, 0, 'r0'],
+                                            ['play', 'k', 's', 0]]},
+                        'horizon': 12.0})
+    return out
+
+
+def nrtsched_expected(prog):
+    """Reference: a list model of pending (clock, task) schedulings ordered
+    by (time, scheduling order); re-scheduling a pending (clock, task) moves
+    it to its new time as the most recent entry."""
+    pend = []       # [time, seq, clock, task]
+    seq = [0]
+    out = []
+    calls = {'f0': 0, 'r0': 0, 'k': 0}
+    rets = {'f0': [1.0, 1.0, 1.0, None], 'r0': [1.0, 1.0, 1.0, None]}
+    kbody = prog['routines']['k']
+
+    def add(t, c, task):
+        pend[:] = [e for e in pend if not (e[2] == c and e[3] == task)]
+        pend.append([t, seq[0], c, task])
+        seq[0] += 1
+    for op in prog['actors']['main']:
+        if op[0] == 'sched':
+            add(op[2] / NS_TEMPO[op[1]], op[1], op[3])
+        else:
+            add(0.0, 's', 'k')
+    kpos = [0]
+    while pend:
+        pend.sort(key=lambda e: (e[0], e[1]))
+        t, _, c, task = pend.pop(0)
+        if task == 'r0' and calls['r0'] >= len(rets['r0']):
+            continue        # a finished routine: awakening it shows nothing
+        out.append([task, t, c])
+        if task == 'k':
+            while kpos[0] < len(kbody):
+                st = kbody[kpos[0]]
+                kpos[0] += 1
+                if st[0] == 'yield':
+                    add(t + st[1], 's', 'k')
+                    break
+                _, c2, d, tg = st
+                add(t + d / NS_TEMPO[c2], c2, tg)
+            continue
+        n = calls[task]
+        calls[task] += 1
+        r = rets[task][n] if n < len(rets[task]) else None
+        if r is not None:
+            add(t + r / NS_TEMPO[c], c, task)
+    return out
+
+
+def nrtsched_check(prog):
+    from mc import rtprog
+    res = rtprog.run_nrt(prog)
+    got = []
+    for e in res['trace']:
+        if e[0] in ('wake', 'res'):
+            got.append([e[1], e[4], e[7]])
+        elif e[0] == 'raises':
+            got.append(['raises', e[1], str(e[3])])
+    exp = nrtsched_expected(prog)
+    # a routine that is exhausted is not awakened again by the model either:
+    # its 4th call returns None; the library logs nothing for a StopStream
+    dis = []
+    if got != exp:
+        n = 0
+        while n < min(len(got), len(exp)) and got[n] == exp[n]:
+            n += 1
+        g = got[n] if n < len(got) else None
+        e = exp[n] if n < len(exp) else None
+        if g is not None and e is not None and g[0] == e[0] and g[2] == e[2]:
+            kind = 'nrt-clock-task-time'
+        elif g is not None and sum(1 for x in got if x[0] == g[0]) > \
+                sum(1 for x in exp if x[0] == g[0]):
+            kind = 'nrt-clock-task-awakened-more-than-scheduled'
+        elif e is not None and sum(1 for x in got if x[0] == e[0]) < \
+                sum(1 for x in exp if x[0] == e[0]):
+            kind = 'nrt-clock-task-lost'
+        else:
+            kind = 'nrt-clock-task-order'
+        dis.append((kind, exp, got, f'first difference at entry {n}: '
+                    f'expected {e}, observed {g} ([task, seconds, clock])'))
+    return dis, got
+
+
+def nrtsched_work(job):
+    from mc.engines import progenum
+    acc = progenum.Acc(max_samples=2)
+    progs = nrtsched_programs()
+    for i, prog in enumerate(progs):
+        if i % job['of'] != job['shard']:
+            continue
+        if job.get('slice_of') and (i // job['of']) % job['slice_of'] != \
+                job['slice_ix']:
+            continue
+        dis, got = nrtsched_check(prog)
+        case = {'part': 'nrtsched', 'prog': prog}
+        for kind, exp, obs, detail in dis:
+            acc.violation(kind, case, exp, obs, detail,
+                          size=len(core.canon(prog)))
+        acc.case(case, True, got, steps=len(got))
+    return acc.result()
+
+
+def _hist_replay(job):
+    if job['case'].get('part') == 'nrtsched':
+        dis, got = nrtsched_check(job['case']['prog'])
+        return {'violates': any(d[0] == job['kind'] for d in dis),
+                'observed': got,
+                'disagreements': [[d[0], repr(d[1])[:600], repr(d[2])[:600]]
+                                  for d in dis]}
+    return histbfs.replay(job)
+
+
 SYSTEMS = {'taskq': TaskQueueSys, 'score': ScoreSys}
-replay = histbfs.replay
+replay = _hist_replay
 
 
 def main(ctx):
@@ -250,12 +405,28 @@ def main(ctx):
                 'model. States are deduplicated on (model contents with '
                 'sequence ranks, heap layout with counter ranks, tombstone '
                 'count). Non-trivial = history contains a priority tie, a '
-                're-add of a present task or a removal.')
+                're-add of a present task or a removal. NRT clock tasks (E1): '
+                'every controller program re-scheduling a function task and '
+                'a routine that are pending / already awakened, on SystemClock'
+                ', TempoClock(2) and AppClock; the sequence of (task, logical '
+                'seconds, clock) awakenings is compared with a list model of '
+                '(clock, task) schedulings.')
     ctx.assumptions += [
         'reference model: insertion-ordered list of (prio, seq, task), '
         'written from the property statement',
         'queue only ever compares priorities and counters, so counters are '
         'renormalised to ranks in the state key']
+    from mc.engines import progenum
+    jobs = [{'shard': i, 'of': 32} for i in range(32)]
+    if ctx.tier == 'quick':
+        for j in jobs:
+            j.update(slice_of=4, slice_ix=core.pick_slice(ctx.seed, 4))
+    progenum.run(ctx, MODNAME, 'nrtsched_work', jobs, mode='nrt',
+                 bound='NRT clock tasks: controller with <=2 re-scheduling '
+                       'calls (3 clocks x 3 deltas x 2 targets each) on tasks '
+                       'that re-schedule themselves' +
+                       (' - 1/4 slice chosen by the seed' if ctx.tier ==
+                        'quick' else ''))
     if ctx.tier == 'quick':
         histbfs.run(ctx, MODNAME, 'taskq',
                     {'prios': [0, 1, 2], 'tasks': ['a', 'b', 'c']}, depth=7)
